@@ -154,6 +154,9 @@ func c08body(cfg c08cfg) func() {
 				case "msg":
 					b, _ := xml.Marshal(stanza.Message{Attrs: stanza.Attrs{To: "peer@example.org", Id: id, Type: "chat"}, Body: "body <" + id + "> & more"})
 					c.wire = string(b)
+				case "bigmsg":
+					b, _ := xml.Marshal(stanza.Message{Attrs: stanza.Attrs{To: "peer@example.org", Id: id}, Body: c08big(id)})
+					c.wire = string(b)
 				case "pres":
 					b, _ := xml.Marshal(stanza.Presence{Attrs: stanza.Attrs{Id: id}, Status: "st " + id})
 					c.wire = string(b)
@@ -173,6 +176,8 @@ func c08body(cfg c08cfg) func() {
 					switch c.op {
 					case "msg":
 						c.err = snd.Send(stanza.Message{Attrs: stanza.Attrs{To: "peer@example.org", Id: id, Type: "chat"}, Body: "body <" + id + "> & more"})
+					case "bigmsg":
+						c.err = snd.Send(stanza.Message{Attrs: stanza.Attrs{To: "peer@example.org", Id: id}, Body: c08big(id)})
 					case "pres":
 						c.err = snd.Send(stanza.Presence{Attrs: stanza.Attrs{Id: id}, Status: "st " + id})
 					case "raw":
@@ -286,6 +291,11 @@ func c08body(cfg c08cfg) func() {
 	}
 }
 
+// c08big is a body larger than any internal buffer an encoder might use (4 KiB, 32 KiB).
+func c08big(id string) string {
+	return id + ":" + strings.Repeat("0123456789abcdef", 2600) + ":" + id
+}
+
 func c08verdict(e *vrt.Exec) {
 	if e.Panic != nil {
 		vrt.Fail("C08|panic", "panic in T%d (%s): %s <- %s", e.Panic.Thread, e.Panic.Site, e.Panic.Value, trimStack(e.Panic.Stack))
@@ -316,6 +326,9 @@ func TestVerifC08(t *testing.T) {
 						add(c08cfg{comp: comp, sm: sm, logger: logger, progs: [][]string{a, b}}, bound)
 					}
 				}
+				// stanzas larger than internal buffers, sent concurrently
+				add(c08cfg{comp: comp, sm: sm, logger: logger, progs: [][]string{{"bigmsg"}, {"bigmsg"}}}, bound)
+				add(c08cfg{comp: comp, sm: sm, logger: logger, progs: [][]string{{"bigmsg"}, {"raw", "iq"}}}, bound)
 				// write faults: one injected fault (deviation) among the calls
 				for _, a := range progsA[:4] {
 					add(c08cfg{comp: comp, sm: sm, logger: logger, faults: true, progs: [][]string{a, {"msg"}}}, bound)
